@@ -580,8 +580,9 @@ fn deser_type_generic<'frame, 'result, StrT: Into<Cow<'result, str>>>(
                 .map_err(|err| CqlTypeParseError::UdtFieldsCountParseError(err.into()))?
                 .into();
 
+            // Each field takes at least 4 bytes (name length + type id).
             let mut field_types: Vec<(Cow<'result, str>, ColumnType)> =
-                Vec::with_capacity(fields_size);
+                Vec::with_capacity(fields_size.min(buf.len() / 4));
 
             for _ in 0..fields_size {
                 let field_name =
@@ -604,7 +605,8 @@ fn deser_type_generic<'frame, 'result, StrT: Into<Cow<'result, str>>>(
             let len: usize = types::read_short(buf)
                 .map_err(|err| CqlTypeParseError::TupleLengthParseError(err.into()))?
                 .into();
-            let mut types = Vec::with_capacity(len);
+            // Each element type takes at least 2 bytes (type id).
+            let mut types = Vec::with_capacity(len.min(buf.len() / 2));
             for _ in 0..len {
                 types.push(deser_type_generic(buf, read_string, read_custom_type)?);
             }
@@ -657,7 +659,9 @@ fn deser_col_specs_generic<'frame, 'result>(
     make_col_spec: fn(&'frame str, ColumnType<'result>, TableSpec<'frame>) -> ColumnSpec<'result>,
     deser_type: fn(&mut &'frame [u8]) -> StdResult<ColumnType<'result>, CqlTypeParseError>,
 ) -> StdResult<Vec<ColumnSpec<'result>>, ColumnSpecParseError> {
-    let mut col_specs = Vec::with_capacity(col_count);
+    // Never trust a count read from the wire for pre-allocation: each column spec takes at least
+    // 4 bytes (name length + type id), so the buffer bounds how many can really follow.
+    let mut col_specs = Vec::with_capacity(col_count.min(buf.len() / 4));
     for col_idx in 0..col_count {
         let table_spec = match global_table_spec {
             // If global table spec was provided, we simply clone it to each column spec.
@@ -933,7 +937,8 @@ fn deser_prepared_metadata(
     let pk_count: usize =
         types::read_int_length(buf).map_err(PreparedMetadataParseError::PkCountParseError)?;
 
-    let mut pk_indexes = Vec::with_capacity(pk_count);
+    // Each partition key index takes 2 bytes; do not pre-allocate more than the buffer can hold.
+    let mut pk_indexes = Vec::with_capacity(pk_count.min(buf.len() / 2));
     for i in 0..pk_count {
         pk_indexes.push(PartitionKeyIndex {
             index: types::read_short(buf)
